@@ -6,10 +6,12 @@ table = {}
 for f in sorted((root / "tools" / "manifest_entries").glob("C*.json")):
     table[f.stem] = json.loads(f.read_text())
 props = [json.loads(l)["id"] for l in (root / "properties.jsonl").read_text().splitlines() if l.strip()]
+# Only properties the integrator has merged (committed files, check green on /repo) are claimed.
+integrated = set((root / "tools" / "integrated.txt").read_text().split())
 checks, na = [], []
 for pid in props:
     e = table.get(pid)
-    if e and e.get("claimed"):
+    if e and e.get("claimed") and pid in integrated:
         checks.append({
             "property_id": pid,
             "quick_cmd": f"./check {pid} --tier quick",
